@@ -2,11 +2,28 @@ package interp
 
 import (
 	"fmt"
+	"go/token"
+	"go/types"
+	"os"
+	"sort"
+	"strings"
 
 	"golang.org/x/tools/go/ssa"
 
 	"verif.local/engine/smt"
+	"verif.local/engine/term"
 )
+
+// ---------------------------------------------------------------------------
+// Bounded model checking of goroutines and channels (DESIGN.md §4).
+//
+// The harness body is run sequentially (set-up). Every goroutine registered
+// during set-up becomes a control-flow automaton: locations are call stacks
+// standing at a visible operation, transitions are "one visible operation plus
+// the local code up to the next one", extracted by running the same SSA
+// interpreter from symbolic register/heap values. The product system is
+// unrolled K steps; the schedule sch@k is a symbolic integer per step.
+// ---------------------------------------------------------------------------
 
 type BMCJob struct {
 	Harness string
@@ -14,6 +31,7 @@ type BMCJob struct {
 	Solver  string
 	Timeout int
 	K       int
+	MaxK    int
 	Verbose bool
 }
 
@@ -32,8 +50,1046 @@ type BMCResult struct {
 	Stubs           map[string]int
 	Asserts         map[string]int
 	Covers          map[string]int
+	Complete        bool
 }
 
+type cellVar struct {
+	v       *term.T
+	obj     *Object
+	init    *term.T
+	written bool
+	key     string
+}
+
+type bchan struct {
+	c      *Chan
+	length *term.T
+	closed *term.T
+	buf    [][]*term.T // slot -> leaves
+	sorts  []term.Sort
+	// timers
+	deadline *term.T
+}
+
+type regSlot struct {
+	reg  ssa.Value
+	typ  types.Type
+	vars []*term.T
+}
+
+type frameTpl struct {
+	fn        *ssa.Function
+	blk, prev *ssa.BasicBlock
+	idx       int
+	fixed     map[ssa.Value]Value
+	slots     []regSlot
+	free      []Value
+	defers    []*deferred
+	callInstr ssa.Value
+	catch     bool
+}
+
+const (
+	opStart = iota
+	opTau
+	opSend
+	opRecv
+	opSelect
+	opClose
+	opCancel
+	opWgAdd
+	opWgDone
+	opWgWait
+	opSleep
+	opExit
+	opTrySend
+)
+
+type arm struct {
+	send bool
+	ch   *Chan
+	x    ssa.Value // value to send (register or constant)
+}
+
+type bloc struct {
+	id     int
+	proc   *bproc
+	key    string
+	frames []*frameTpl
+	kind   int
+	arms   []arm // send/recv/select arms
+	block  bool  // select is blocking
+	commaOk bool
+	instr  ssa.Instruction
+	wgKey  string
+	done   bool
+	desc   string
+}
+
+type bproc struct {
+	idx   int
+	p     *Proc
+	pc    *term.T
+	start *bloc
+	exit  *bloc
+	locs  []*bloc
+	sleep *term.T // wake-up deadline while at a Sleep location
+}
+
+type outcome struct {
+	loc      *bloc
+	name     string
+	arm      int
+	chanG    *term.T             // channel-state guard (over state vars)
+	chanUpd  map[*term.T]*term.T // channel/wg/clock updates
+	rv       bool                // rendezvous half (needs a partner)
+	rvVals   []*term.T           // receiver half: placeholder leaves for the received value
+	sendVals []*term.T           // sender half: leaves of the value sent (filled per path)
+	panicMsg string
+	paths    []*bpath
+	chans    []*Chan
+	clock    bool
+}
+
+type bpath struct {
+	guard    *term.T
+	upd      map[*term.T]*term.T
+	dst      *bloc
+	asserts  []assertRec
+	covers   []string
+	inputs   []*term.T
+	reads    map[string]bool
+	writes   map[string]bool
+	sendVals []*term.T
+	panicMsg string
+	chans    []*Chan // channels touched by local code (none normally)
+	wg       []string
+}
+
+type btrans struct {
+	id      int
+	procs   []*bproc
+	src     []*bloc
+	dst     []*bloc
+	guard   *term.T
+	upd     map[*term.T]*term.T
+	asserts []assertRec
+	covers  []string
+	inputs  []*term.T
+	label   string
+	panicMsg string
+	chans   map[int]bool
+	reads   map[string]bool
+	writes  map[string]bool
+	wgs     map[string]bool
+	clock   bool
+	env     bool
+}
+
+type bmcSys struct {
+	job   *BMCJob
+	f     *term.Factory
+	s     *smt.Solver
+	w     *World
+	prog  *ssa.Program
+	sizes types.Sizes
+	setup *Machine
+	r     *Results
+	res   *BMCResult
+
+	procs   []*bproc
+	chans   map[*Chan]*bchan
+	cells   map[string]*cellVar
+	symHeap map[*Object]Value
+	wgs     map[string]*term.T
+	now     *term.T
+	nowUsed bool
+	clock   int // 0 none, 1 lax, 2 urgent
+
+	stateVars []*term.T
+	init      map[*term.T]*term.T
+	panicVar  *term.T
+	failVars  map[string]*term.T
+	coverVars map[string]*term.T
+	labels    []string
+
+	locs     []*bloc
+	outcomes []*outcome
+	trans    []*btrans
+	allocs   map[string]*Object
+	finals   map[string]*term.T
+	invars   map[string]*term.T
+	quiesc   *term.T
+	libExit  *term.T
+
+	verbose bool
+}
+
+func (b *bmcSys) logf(format string, a ...interface{}) {
+	if b.verbose {
+		fmt.Fprintf(os.Stderr, format+"\n", a...)
+	}
+}
+
+func (b *bmcSys) newState(name string, s term.Sort, init *term.T) *term.T {
+	v := b.f.Var(name, s)
+	if _, ok := b.init[v]; !ok {
+		b.stateVars = append(b.stateVars, v)
+	}
+	b.init[v] = init
+	return v
+}
+
+func zeroOfSort(f *term.Factory, s term.Sort) *term.T {
+	switch s.K {
+	case term.KBool:
+		return f.False()
+	case term.KBV:
+		return f.BVC(s.W, 0)
+	case term.KInt:
+		return f.IntC(0)
+	case term.KF32:
+		return f.F32C(0)
+	}
+	return f.F64C(0)
+}
+
+// RunBMC explores every configuration (set-up path) of the harness.
 func RunBMC(prog *ssa.Program, sizes typesSizes, fn *ssa.Function, job *BMCJob) (*BMCResult, *smt.Stats, error) {
-	return nil, nil, fmt.Errorf("BMC not built yet")
+	f := term.NewFactory()
+	kind := job.Solver
+	if kind == "" {
+		kind = "z3new"
+	}
+	to := job.Timeout
+	if to == 0 {
+		to = 600000
+	}
+	s, err := smt.New(kind, f, to)
+	if err != nil {
+		return nil, nil, err
+	}
+	defer func() { s.Close() }()
+	res := &BMCResult{Witnesses: map[string]string{}, Funcs: map[string]int{}, Stubs: map[string]int{}, Asserts: map[string]int{}, Covers: map[string]int{}}
+	r := NewResults()
+	var acc statsAcc
+	work := [][]int{nil}
+	constCache := map[*ssa.Const]Value{}
+	for len(work) > 0 {
+		prefix := work[len(work)-1]
+		work = work[:len(work)-1]
+		w := &World{Prog: prog, Sizes: sizes, Params: job.Params, WG: map[string]int64{}}
+		m := newMachine(w, f, s, r, 500000)
+		m.constCache = constCache
+		m.prefix = prefix
+		m.trackObjs = true
+		m.inSetup = true
+		sys := &bmcSys{job: job, f: f, s: s, w: w, prog: prog, sizes: sizes, setup: m, r: r, res: res, verbose: job.Verbose,
+			chans: map[*Chan]*bchan{}, cells: map[string]*cellVar{}, symHeap: map[*Object]Value{}, wgs: map[string]*term.T{},
+			init: map[*term.T]*term.T{}, failVars: map[string]*term.T{}, coverVars: map[string]*term.T{}, allocs: map[string]*Object{},
+			finals: map[string]*term.T{}, invars: map[string]*term.T{}}
+		m.bmcHooks = sys.hooks()
+		f.ResetFresh()
+		s.Push()
+		nv := len(r.Violations)
+		ok := sys.runSetup(fn)
+		work = append(work, m.pending...)
+		res.Violations = append(res.Violations, r.Violations[nv:]...)
+		for k, v := range r.AssertsHit {
+			res.Asserts[k] += v
+		}
+		r.AssertsHit = map[string]int{}
+		if ok {
+			res.Configs++
+			func() {
+				defer func() {
+					if x := recover(); x != nil {
+						if u, is := x.(Unsupported); is {
+							res.Unsupported = append(res.Unsupported, u.Msg)
+							return
+						}
+						panic(x)
+					}
+				}()
+				sys.check()
+			}()
+		}
+		s.Pop()
+		// a fresh solver per configuration keeps definitions from piling up
+		acc.add(s.Stats)
+		s.Close()
+		if s, err = smt.New(kind, f, to); err != nil {
+			return res, &acc.Stats, err
+		}
+		if len(res.Unsupported) > 5 {
+			break
+		}
+	}
+	res.Unsupported = append(res.Unsupported, r.Unsupported...)
+	res.Unknown = append(res.Unknown, r.Unknown...)
+	for fn, n := range r.FuncPtr {
+		res.Funcs[fn.String()] += n
+	}
+	for k, v := range r.Stubs {
+		res.Stubs[k] += v
+	}
+	acc.add(s.Stats)
+	return res, &acc.Stats, nil
+}
+
+func (b *bmcSys) runSetup(fn *ssa.Function) (ok bool) {
+	m := b.setup
+	defer func() {
+		if x := recover(); x != nil {
+			switch e := x.(type) {
+			case pathEnd:
+				ok = false
+			case goPanicSig:
+				b.res.Violations = append(b.res.Violations, &Violation{Label: "setup-panic", Detail: e.msg})
+				ok = false
+			case Unsupported:
+				b.res.Unsupported = append(b.res.Unsupported, "set-up: "+e.Msg+" @ "+m.where())
+				ok = false
+			default:
+				panic(x)
+			}
+		}
+	}()
+	m.pushCall(fn, nil, nil, nil)
+	m.run(0)
+	m.inSetup = false
+	return true
+}
+
+// ---------------------------------------------------------------------------
+// hooks: visible operations, allocation, intrinsics
+// ---------------------------------------------------------------------------
+
+func wgKeyOf(v Value) string {
+	p, ok := v.(*PtrV)
+	if !ok || p.Obj == nil {
+		unsupported("WaitGroup receiver is not a plain pointer")
+	}
+	return cellKey(p.Obj, p.Path)
+}
+
+func (b *bmcSys) hooks() *bmcHooks {
+	return &bmcHooks{
+		visible: func(m *Machine, fr *Frame, instr ssa.Instruction) bool {
+			switch in := instr.(type) {
+			case *ssa.Send, *ssa.Select:
+				return true
+			case *ssa.UnOp:
+				return in.Op == token.ARROW
+			case *ssa.RunDefers:
+				if n := len(fr.defers); n > 0 {
+					if bi, ok := fr.defers[n-1].fn.(*ssa.Builtin); ok && bi.Name() == "close" {
+						return true
+					}
+					if fv, ok := fr.defers[n-1].fn.(*FuncV); ok && fv != nil && fv.Fn == nil && fv.Builtin == "cancel" {
+						return true
+					}
+				}
+			case *ssa.Call:
+				c := in.Common()
+				if c.IsInvoke() {
+					return false
+				}
+				if bi, ok := c.Value.(*ssa.Builtin); ok {
+					return bi.Name() == "close"
+				}
+				if callee := c.StaticCallee(); callee != nil {
+					switch originOf(callee).String() {
+					case "(*sync.WaitGroup).Add", "(*sync.WaitGroup).Done", "(*sync.WaitGroup).Wait", "time.Sleep", "verif.local/vrt.TrySend", "verif.local/vrt.Sleep":
+						return true
+					}
+					return false
+				}
+				if fv, ok := m.get(fr, c.Value).(*FuncV); ok && fv != nil && fv.Fn == nil && fv.Builtin == "cancel" {
+					return true
+				}
+			}
+			return false
+		},
+		alloc: func(m *Machine, fr *Frame, in *ssa.Alloc, et typesType) *Object {
+			// a static cell per (process, allocation site): the previous incarnation
+			// must be dead when the site is executed again
+			if !b.regFlat(et) || m.curProc == nil {
+				// not a pure scalar cell: a goroutine-local temporary (must be dead at
+				// the next visible operation; capture() rejects live pointers to it)
+				return m.newObject(et, m.zero(et), "local:"+in.Comment)
+			}
+			key := fmt.Sprintf("p%d.%s.%d.%d", m.curProc.idx(b), fr.fn.String(), in.Block().Index, instrIndex(in))
+			o, ok := b.allocs[key]
+			if !ok {
+				o = m.newObject(et, m.zero(et), "alloc:"+key)
+				o.Setup = true
+				b.allocs[key] = o
+				b.symbolizeObject(m, o)
+			}
+			m.overlay[o] = m.zero(et)
+			m.noteWrite(o, nil)
+			return o
+		},
+		intrinsic: func(m *Machine, name string, fn *ssa.Function, args []Value) *modelRes {
+			return b.intrinsic(m, name, fn, args)
+		},
+	}
+}
+
+func instrIndex(in ssa.Instruction) int {
+	for i, x := range in.Block().Instrs {
+		if x == in {
+			return i
+		}
+	}
+	return -1
+}
+
+func (p *Proc) idx(b *bmcSys) int {
+	for _, bp := range b.procs {
+		if bp.p == p {
+			return bp.idx
+		}
+	}
+	return -1
+}
+
+func (b *bmcSys) intrinsic(m *Machine, name string, fn *ssa.Function, args []Value) *modelRes {
+	f := b.f
+	switch name {
+	case "(*sync.WaitGroup).Add":
+		if m.procMode {
+			unsupported("internal: WaitGroup.Add reached sequentially in process mode")
+		}
+		k := wgKeyOf(args[0])
+		b.w.WG[k] += int64(m.constInt(args[1]))
+		return &modelRes{}
+	case "(*sync.WaitGroup).Done", "(*sync.WaitGroup).Wait":
+		if !m.procMode {
+			k := wgKeyOf(args[0])
+			if name == "(*sync.WaitGroup).Done" {
+				b.w.WG[k]--
+				return &modelRes{}
+			}
+			if b.w.WG[k] != 0 {
+				unsupported("WaitGroup.Wait would block during set-up")
+			}
+			return &modelRes{}
+		}
+		unsupported("internal: %s reached sequentially in process mode", name)
+	case "time.After":
+		d := args[0].(*term.T)
+		// a timer object per call site and process
+		key := fmt.Sprintf("timer.p%d.%s", m.curProc.idx(b), m.where())
+		var tc *Chan
+		for _, c := range b.w.Timers {
+			if c.Name == key {
+				tc = c
+			}
+		}
+		if tc == nil {
+			tc = &Chan{ID: len(b.w.Chans), Cap: 1, ElemT: types.NewStruct(nil, nil), Name: key}
+			b.w.Chans = append(b.w.Chans, tc)
+			b.w.Timers = append(b.w.Timers, tc)
+			bc := b.chanState(tc)
+			bc.deadline = b.newState("timer."+fmt.Sprint(tc.ID)+".deadline", term.Int, f.IntC(0))
+		}
+		bc := b.chanState(tc)
+		b.nowUsed = true
+		if m.pathUpd == nil {
+			unsupported("time.After outside a goroutine")
+		}
+		m.pathUpd[bc.deadline] = f.IAdd(b.now, b.durToInt(d))
+		return &modelRes{v: &ChanV{C: tc}}
+	case "verif.local/vrt.Closed":
+		c := args[0].(*IfaceV).V.(*ChanV)
+		if c.C == nil {
+			return &modelRes{v: f.False()}
+		}
+		return &modelRes{v: b.chanState(c.C).closed}
+	case "verif.local/vrt.ChanLen":
+		c := args[0].(*IfaceV).V.(*ChanV)
+		if c.C == nil {
+			return &modelRes{v: f.BVC(64, 0)}
+		}
+		return &modelRes{v: b.intToBV(b.chanState(c.C).length)}
+	case "verif.local/vrt.LibExited":
+		return &modelRes{v: b.libExited()}
+	case "verif.local/vrt.Exited":
+		nm := constStr(args[0])
+		cs := []*term.T{}
+		found := false
+		for _, p := range b.procs {
+			if p.p.Name == nm || strings.HasPrefix(p.p.Name, nm+"#") {
+				cs = append(cs, f.Eq(p.pc, f.IntC(int64(p.exit.id))))
+				found = true
+			}
+		}
+		if !found {
+			unsupported("vrt.Exited: no process named %q", nm)
+		}
+		return &modelRes{v: f.And(cs...)}
+	case "verif.local/vrt.Now":
+		b.nowUsed = true
+		return &modelRes{v: b.intToBV(b.now)}
+	case "verif.local/vrt.Daemon":
+		nm := constStr(args[0])
+		for _, p := range m.procs {
+			if strings.HasPrefix(p.Name, nm) {
+				p.Daemon = true
+			}
+		}
+		return &modelRes{}
+	}
+	unsupported("BMC intrinsic %s", name)
+	return nil
+}
+
+// durations and BMC integers: the clock is a mathematical integer; Go values are bit-vectors
+func (b *bmcSys) durToInt(d *term.T) *term.T {
+	if d.IsConst() {
+		return b.f.IntC(term.SignedVal(d))
+	}
+	return b.f.BV2Int(d)
+}
+
+func (b *bmcSys) intToBV(i *term.T) *term.T {
+	if i.IsConst() {
+		return b.f.BVC(64, uint64(i.I))
+	}
+	// Int -> BV64 through an auxiliary definition: ite-chain is avoided by
+	// keeping BMC integers small; use int2bv
+	return b.f.Int2BV(64, i)
+}
+
+func (b *bmcSys) libExited() *term.T {
+	cs := []*term.T{}
+	for _, p := range b.procs {
+		if p.p.Lib && !p.p.Daemon {
+			cs = append(cs, b.f.Eq(p.pc, b.f.IntC(int64(p.exit.id))))
+		}
+	}
+	return b.f.And(cs...)
+}
+
+// ---------------------------------------------------------------------------
+// state: channels, heap cells
+// ---------------------------------------------------------------------------
+
+func (b *bmcSys) chanState(c *Chan) *bchan {
+	if bc, ok := b.chans[c]; ok {
+		return bc
+	}
+	f := b.f
+	bc := &bchan{c: c}
+	name := fmt.Sprintf("ch%d", c.ID)
+	bc.sorts = b.setup.leafSorts(c.ElemT, nil)
+	initLen := int64(len(c.Buf))
+	bc.length = b.newState(name+".len", term.Int, f.IntC(initLen))
+	bc.closed = b.newState(name+".closed", term.Bool, f.BoolC(c.Closed))
+	for i := 0; i < c.Cap; i++ {
+		var leaves []*term.T
+		var initLeaves []*term.T
+		if i < len(c.Buf) {
+			initLeaves = b.setup.flatten(c.Buf[i], c.ElemT, nil)
+		}
+		for k, so := range bc.sorts {
+			iv := zeroOfSort(f, so)
+			if initLeaves != nil {
+				iv = initLeaves[k]
+			}
+			leaves = append(leaves, b.newState(fmt.Sprintf("%s.buf%d.%d", name, i, k), so, iv))
+		}
+		bc.buf = append(bc.buf, leaves)
+	}
+	b.chans[c] = bc
+	return bc
+}
+
+func isErrorType(t types.Type) bool {
+	n, ok := types.Unalias(t).(*types.Named)
+	return ok && n.Obj().Pkg() == nil && n.Obj().Name() == "error"
+}
+
+// regFlat reports whether a register/cell of this type is kept as state variables.
+func (b *bmcSys) regFlat(t types.Type) bool {
+	switch u := under(t).(type) {
+	case *types.Basic:
+		if _, _, ok := intBits(t); ok {
+			return true
+		}
+		if _, ok := isFloat(t); ok {
+			return true
+		}
+		return isBool(t)
+	case *types.Struct:
+		for i := 0; i < u.NumFields(); i++ {
+			if !b.regFlat(u.Field(i).Type()) {
+				return false
+			}
+		}
+		return true
+	case *types.Array:
+		return b.regFlat(u.Elem())
+	case *types.Interface:
+		return isErrorType(t)
+	case *types.Pointer:
+		return b.w.arenaFor(u.Elem()) != nil
+	}
+	return false
+}
+
+// symbolizeObject registers state variables for every flat leaf of a set-up object.
+func (b *bmcSys) symbolizeObject(m *Machine, o *Object) {
+	if _, ok := b.symHeap[o]; ok {
+		return
+	}
+	b.symHeap[o] = b.symbolize(m, o, o.Val, o.T, nil)
+}
+
+func (b *bmcSys) symbolize(m *Machine, o *Object, v Value, t types.Type, path []int) Value {
+	if b.regFlat(t) {
+		if _, isIface := under(t).(*types.Interface); isIface {
+			iv := v.(*IfaceV)
+			// keep non-scalar payloads concrete
+			ok := true
+			func() {
+				defer func() {
+					if r := recover(); r != nil {
+						if _, is := r.(Unsupported); is {
+							ok = false
+							return
+						}
+						panic(r)
+					}
+				}()
+				m.ifaceFlat(iv)
+			}()
+			if !ok {
+				return v
+			}
+		}
+		leaves := m.flatten(v, t, nil)
+		sorts := m.leafSorts(t, nil)
+		vars := make([]*term.T, len(leaves))
+		for k := range leaves {
+			key := fmt.Sprintf("%s#%d", cellKey(o, path), k)
+			cv := &cellVar{obj: o, init: leaves[k], key: cellKey(o, path)}
+			cv.v = b.newState("c."+key, sorts[k], leaves[k])
+			b.cells[cv.v.Name] = cv
+			vars[k] = cv.v
+		}
+		pos := 0
+		return m.unflatten(t, vars, &pos)
+	}
+	switch u := under(t).(type) {
+	case *types.Struct:
+		sv, ok := v.(*StructV)
+		if !ok {
+			return v
+		}
+		out := &StructV{F: make([]Value, len(sv.F))}
+		for i := range sv.F {
+			out.F[i] = b.symbolize(m, o, sv.F[i], u.Field(i).Type(), append(append([]int(nil), path...), i))
+		}
+		return out
+	case *types.Array:
+		av, ok := v.(*ArrayV)
+		if !ok {
+			return v
+		}
+		out := &ArrayV{E: make([]Value, len(av.E))}
+		for i := range av.E {
+			out.E[i] = b.symbolize(m, o, av.E[i], u.Elem(), append(append([]int(nil), path...), i))
+		}
+		return out
+	}
+	return v
+}
+
+// diffObject turns the overlay value of an object into cell updates.
+func (b *bmcSys) diffObject(m *Machine, o *Object, nv Value, base Value, t types.Type, path []int, upd map[*term.T]*term.T) {
+	if b.regFlat(t) {
+		bl, okb := tryFlatten(m, base, t)
+		if okb && len(bl) > 0 && bl[0].Op == term.OVar && b.cells[bl[0].Name] != nil {
+			nl := m.flatten(nv, t, nil)
+			for k := range bl {
+				if nl[k] != bl[k] {
+					upd[bl[k]] = nl[k]
+					b.cells[bl[k].Name].written = true
+				}
+			}
+			return
+		}
+	}
+	switch u := under(t).(type) {
+	case *types.Struct:
+		ns, ok1 := nv.(*StructV)
+		bs, ok2 := base.(*StructV)
+		if ok1 && ok2 {
+			for i := range ns.F {
+				if ns.F[i] != bs.F[i] {
+					b.diffObject(m, o, ns.F[i], bs.F[i], u.Field(i).Type(), append(append([]int(nil), path...), i), upd)
+				}
+			}
+			return
+		}
+	case *types.Array:
+		na, ok1 := nv.(*ArrayV)
+		ba, ok2 := base.(*ArrayV)
+		if ok1 && ok2 {
+			for i := range na.E {
+				if na.E[i] != ba.E[i] {
+					b.diffObject(m, o, na.E[i], ba.E[i], u.Elem(), append(append([]int(nil), path...), i), upd)
+				}
+			}
+			return
+		}
+	}
+	if valueID(nv) != valueID(base) {
+		unsupported("a goroutine stores a non-scalar value into shared cell %s%v (%s)", o.Name, path, t)
+	}
+}
+
+func tryFlatten(m *Machine, v Value, t types.Type) (ls []*term.T, ok bool) {
+	defer func() {
+		if r := recover(); r != nil {
+			if _, is := r.(Unsupported); is {
+				ok = false
+				return
+			}
+			panic(r)
+		}
+	}()
+	return m.flatten(v, t, nil), true
+}
+
+// valueID is the identity of a non-scalar value (part of a location's key).
+func valueID(v Value) string {
+	switch x := v.(type) {
+	case nil:
+		return "nil"
+	case *term.T:
+		if x.IsConst() {
+			return fmt.Sprintf("k%d", x.ID)
+		}
+		return fmt.Sprintf("t%d", x.ID)
+	case string:
+		return "s:" + x
+	case *PtrV:
+		if x.IsNil() {
+			return "p:nil"
+		}
+		if x.Arena != nil {
+			return fmt.Sprintf("pa:%s:%d", x.Arena.Name, x.Idx.ID)
+		}
+		if strings.HasPrefix(x.Obj.Name, "local:") {
+			unsupported("a pointer to a goroutine-local non-scalar object (%s) is live across a visible operation", x.Obj.T)
+		}
+		return "p:" + cellKey(x.Obj, x.Path)
+	case *FuncV:
+		if x == nil {
+			return "f:nil"
+		}
+		var sb strings.Builder
+		if x.Fn != nil {
+			fmt.Fprintf(&sb, "f:%p", x.Fn)
+		} else {
+			fmt.Fprintf(&sb, "fb:%s:%s", x.Builtin, valueID(x.Data))
+		}
+		for _, fv := range x.Free {
+			sb.WriteString("," + valueID(fv))
+		}
+		return sb.String()
+	case *ChanV:
+		if x.C == nil {
+			return "c:nil"
+		}
+		return fmt.Sprintf("c:%d", x.C.ID)
+	case *IfaceV:
+		if x.Tag != nil {
+			return fmt.Sprintf("i:sym:%d:%d", x.Tag.ID, x.Pay.ID)
+		}
+		if x.Dyn == nil {
+			return "i:nil"
+		}
+		return "i:" + x.Dyn.String() + ":" + valueID(x.V)
+	case *SliceV:
+		if x.Obj == nil {
+			return "sl:nil"
+		}
+		return fmt.Sprintf("sl:%d:%d:%d:%d", x.Obj.ID, x.Off, x.Len, x.Cap)
+	case *StructV:
+		var ps []string
+		for _, e := range x.F {
+			ps = append(ps, valueID(e))
+		}
+		return "{" + strings.Join(ps, ",") + "}"
+	case *ArrayV:
+		var ps []string
+		for _, e := range x.E {
+			ps = append(ps, valueID(e))
+		}
+		return "[" + strings.Join(ps, ",") + "]"
+	case TupleV:
+		var ps []string
+		for _, e := range x {
+			ps = append(ps, valueID(e))
+		}
+		return "(" + strings.Join(ps, ",") + ")"
+	case *ModelV:
+		return fmt.Sprintf("m:%p", x)
+	case *MapV:
+		return fmt.Sprintf("map:%p", x.M)
+	case *RTypeV:
+		return "rt:" + x.T.String()
+	case *ssa.Builtin:
+		return "b:" + x.Name()
+	case *AddrV:
+		return fmt.Sprintf("a:%v:%d", x.Path, x.Off)
+	case *SymStr:
+		return fmt.Sprintf("ss:%d", x.Len.ID)
+	}
+	return fmt.Sprintf("?%T", v)
+}
+
+// ---------------------------------------------------------------------------
+// locations
+// ---------------------------------------------------------------------------
+
+func regName(v ssa.Value) string {
+	if p, ok := v.(*ssa.Parameter); ok {
+		return "arg." + p.Name()
+	}
+	return v.Name()
+}
+
+// capture interns the location the machine stands at and returns it together
+// with the values of its state registers (to become updates of the arriving
+// transition).
+func (b *bmcSys) capture(m *Machine, p *bproc) (*bloc, map[*term.T]*term.T) {
+	upd := map[*term.T]*term.T{}
+	if len(m.stack) == 0 {
+		return p.exit, upd
+	}
+	var key strings.Builder
+	var tpls []*frameTpl
+	for d, fr := range m.stack {
+		idx := fr.idx
+		live := liveBefore(fr.fn, fr.blk, idx)
+		if d < len(m.stack)-1 {
+			// suspended at a call: idx already points behind it
+		}
+		tpl := &frameTpl{fn: fr.fn, blk: fr.blk, prev: fr.prev, idx: idx, fixed: map[ssa.Value]Value{}, free: fr.free, callInstr: fr.callInstr, catch: fr.catch}
+		tpl.defers = append(tpl.defers, fr.defers...)
+		fmt.Fprintf(&key, "|%p.%d.%d", fr.fn, fr.blk.Index, idx)
+		var regs []ssa.Value
+		for v := range live {
+			if _, ok := fr.regs[v]; ok {
+				regs = append(regs, v)
+			}
+		}
+		sort.Slice(regs, func(i, j int) bool { return regName(regs[i]) < regName(regs[j]) })
+		for _, v := range regs {
+			val := fr.regs[v]
+			if b.regFlat(v.Type()) {
+				if leaves, ok := tryFlatten(m, val, v.Type()); ok {
+					sorts := m.leafSorts(v.Type(), nil)
+					slot := regSlot{reg: v, typ: v.Type()}
+					for k := range leaves {
+						name := fmt.Sprintf("r.p%d.d%d.%s.%s.%d", p.idx, d, shortFn(fr.fn), regName(v), k)
+						sv := b.newStateKeep(name, sorts[k])
+						slot.vars = append(slot.vars, sv)
+						upd[sv] = leaves[k]
+					}
+					tpl.slots = append(tpl.slots, slot)
+					fmt.Fprintf(&key, ";%s=S", regName(v))
+					continue
+				}
+			}
+			tpl.fixed[v] = val
+			fmt.Fprintf(&key, ";%s=%s", regName(v), valueID(val))
+		}
+		for _, fv := range fr.free {
+			fmt.Fprintf(&key, ";fv=%s", valueID(fv))
+		}
+		for _, df := range fr.defers {
+			fmt.Fprintf(&key, ";defer=%s", valueID(df.fn))
+			for _, a := range df.args {
+				fmt.Fprintf(&key, ",%s", valueID(a))
+			}
+		}
+		tpls = append(tpls, tpl)
+	}
+	if m.cut {
+		key.WriteString("|cut")
+	}
+	k := key.String()
+	for _, l := range p.locs {
+		if l.key == k {
+			return l, upd
+		}
+	}
+	l := &bloc{id: len(b.locs), proc: p, key: k, frames: tpls}
+	b.locs = append(b.locs, l)
+	p.locs = append(p.locs, l)
+	b.classify(m, l)
+	return l, upd
+}
+
+func shortFn(fn *ssa.Function) string {
+	s := fn.Name()
+	if len(s) > 24 {
+		s = s[:24]
+	}
+	return strings.NewReplacer("|", "_", " ", "_").Replace(s)
+}
+
+func (b *bmcSys) newStateKeep(name string, s term.Sort) *term.T {
+	v := b.f.Var(name, s)
+	if _, ok := b.init[v]; !ok {
+		b.stateVars = append(b.stateVars, v)
+		b.init[v] = zeroOfSort(b.f, s)
+	}
+	return v
+}
+
+// classify determines the pending visible operation of a new location.
+func (b *bmcSys) classify(m *Machine, l *bloc) {
+	fr := m.top()
+	if m.cut {
+		l.kind = opTau
+		l.desc = "tau@" + shortFn(fr.fn)
+		return
+	}
+	instr := fr.blk.Instrs[fr.idx]
+	l.instr = instr
+	pos := ""
+	if p := instr.Pos(); p.IsValid() {
+		pp := b.prog.Fset.Position(p)
+		pos = fmt.Sprintf("%s:%d", shortFile(pp.Filename), pp.Line)
+	}
+	chanOf := func(v ssa.Value) *Chan {
+		cv, ok := m.get(fr, v).(*ChanV)
+		if !ok {
+			unsupported("channel operand is %T", m.get(fr, v))
+		}
+		if cv.C != nil {
+			b.chanState(cv.C)
+		}
+		return cv.C
+	}
+	switch in := instr.(type) {
+	case *ssa.Send:
+		l.kind = opSend
+		l.arms = []arm{{send: true, ch: chanOf(in.Chan), x: in.X}}
+		l.block = true
+		l.desc = "send " + pos
+	case *ssa.UnOp:
+		l.kind = opRecv
+		l.arms = []arm{{send: false, ch: chanOf(in.X)}}
+		l.commaOk = in.CommaOk
+		l.block = true
+		l.desc = "recv " + pos
+	case *ssa.Select:
+		l.kind = opSelect
+		l.block = in.Blocking
+		for _, st := range in.States {
+			a := arm{send: st.Dir == types.SendOnly, ch: chanOf(st.Chan), x: st.Send}
+			l.arms = append(l.arms, a)
+		}
+		l.desc = "select " + pos
+	case *ssa.RunDefers:
+		d := fr.defers[len(fr.defers)-1]
+		if fv, ok := d.fn.(*FuncV); ok && fv != nil && fv.Builtin == "cancel" {
+			l.kind = opCancel
+			l.arms = []arm{{ch: fv.Data.(*ChanV).C}}
+			b.chanState(l.arms[0].ch)
+			l.desc = "deferred cancel " + pos
+			return
+		}
+		l.kind = opClose
+		cv := d.args[0].(*ChanV)
+		if cv.C != nil {
+			b.chanState(cv.C)
+		}
+		l.arms = []arm{{ch: cv.C}}
+		l.desc = "deferred close " + pos
+	case *ssa.Call:
+		c := in.Common()
+		if bi, ok := c.Value.(*ssa.Builtin); ok && bi.Name() == "close" {
+			l.kind = opClose
+			l.arms = []arm{{ch: chanOf(c.Args[0])}}
+			l.desc = "close " + pos
+			return
+		}
+		if callee := c.StaticCallee(); callee != nil {
+			switch originOf(callee).String() {
+			case "(*sync.WaitGroup).Add":
+				l.kind = opWgAdd
+				l.wgKey = wgKeyOf(m.get(fr, c.Args[0]))
+			case "(*sync.WaitGroup).Done":
+				l.kind = opWgDone
+				l.wgKey = wgKeyOf(m.get(fr, c.Args[0]))
+			case "(*sync.WaitGroup).Wait":
+				l.kind = opWgWait
+				l.wgKey = wgKeyOf(m.get(fr, c.Args[0]))
+			case "time.Sleep", "verif.local/vrt.Sleep":
+				l.kind = opSleep
+			case "verif.local/vrt.TrySend":
+				l.kind = opTrySend
+				l.arms = []arm{{send: true, ch: chanOf(c.Args[0]), x: c.Args[1]}}
+			}
+			if l.wgKey != "" {
+				b.wgVar(l.wgKey)
+			}
+			l.desc = originOf(callee).Name() + " " + pos
+			return
+		}
+		if fv, ok := m.get(fr, c.Value).(*FuncV); ok && fv != nil && fv.Builtin == "cancel" {
+			l.kind = opCancel
+			l.arms = []arm{{ch: fv.Data.(*ChanV).C}}
+			b.chanState(l.arms[0].ch)
+			l.desc = "cancel " + pos
+			return
+		}
+		unsupported("visible call %s", in)
+	default:
+		unsupported("visible instruction %T", instr)
+	}
+}
+
+func shortFile(p string) string {
+	if i := strings.LastIndex(p, "/"); i >= 0 {
+		return p[i+1:]
+	}
+	return p
+}
+
+func (b *bmcSys) wgVar(k string) *term.T {
+	if v, ok := b.wgs[k]; ok {
+		return v
+	}
+	v := b.newState("wg."+k, term.Int, b.f.IntC(b.w.WG[k]))
+	b.wgs[k] = v
+	return v
+}
+
+// restore rebuilds the call stack of a location with symbolic registers.
+func (b *bmcSys) restore(m *Machine, l *bloc) {
+	m.stack = m.stack[:0]
+	for _, tpl := range l.frames {
+		fr := &Frame{fn: tpl.fn, blk: tpl.blk, prev: tpl.prev, idx: tpl.idx, regs: make(map[ssa.Value]Value, len(tpl.fixed)+len(tpl.slots)),
+			free: tpl.free, callInstr: tpl.callInstr, catch: tpl.catch}
+		fr.defers = append(fr.defers, tpl.defers...)
+		for k, v := range tpl.fixed {
+			fr.regs[k] = v
+		}
+		for _, s := range tpl.slots {
+			pos := 0
+			fr.regs[s.reg] = m.unflatten(s.typ, s.vars, &pos)
+		}
+		m.stack = append(m.stack, fr)
+	}
 }
